@@ -12,6 +12,7 @@ import (
 	saotypes "github.com/SaoNetwork/sao/x/sao/types"
 	sdk "github.com/cosmos/cosmos-sdk/types"
 	sdkerrors "github.com/cosmos/cosmos-sdk/types/errors"
+	banktypes "github.com/cosmos/cosmos-sdk/x/bank/types"
 	stakingtypes "github.com/cosmos/cosmos-sdk/x/staking/types"
 )
 
@@ -257,6 +258,8 @@ func (c *Chain) Msg(e *Event) sdk.Msg {
 		return c.didUpdateMsg(e)
 	case "PayAddrSid":
 		return &didtypes.MsgUpdatePaymentAddress{Creator: c.addr(e.Creator), AccountId: "cosmos:" + ChainID + ":" + c.addr(e.Acc), Did: c.Concrete(e.Did)}
+	case "Send":
+		return &banktypes.MsgSend{FromAddress: c.addr(e.Creator), ToAddress: c.addr(e.Acc), Amount: sdk.NewCoins(sdk.NewInt64Coin(Denom, e.Amount))}
 	case "Delegate":
 		return &stakingtypes.MsgDelegate{DelegatorAddress: c.addr(e.Creator), ValidatorAddress: c.Concrete(e.Val), Amount: sdk.NewInt64Coin(Denom, e.Amount)}
 	case "Undelegate":
